@@ -250,6 +250,45 @@ where
     }
 }
 
+#[cfg(feature = "verif-hooks")]
+impl<IntT> CoverageHistogram<IntT>
+where
+    IntT: for<'a> UInt<'a>,
+{
+    /// Fitted error weight, coverage, cutoff and the (truncated) count histogram
+    pub fn verif_state(&self) -> (f64, f64, usize, Vec<u32>, bool) {
+        (
+            self.w0,
+            self.c,
+            self.cutoff,
+            self.counts.clone(),
+            self.fitted,
+        )
+    }
+
+    /// Multiplicity of every distinct split k-mer counted from the reads
+    pub fn verif_kmer_counts(&self) -> Vec<(IntT, u32)> {
+        self.kmer_dict.iter().map(|(k, v)| (*k, *v)).collect()
+    }
+}
+
+/// Access to the private model functions (cargo feature `verif-hooks`)
+#[cfg(feature = "verif-hooks")]
+pub mod verif {
+    /// Mixture log-likelihood, see `log_likelihood`
+    pub fn log_likelihood(pars: &[f64], counts: &[f64]) -> f64 {
+        super::log_likelihood(pars, counts)
+    }
+    /// Analytic gradient, see `grad_ll`
+    pub fn grad_ll(pars: &[f64], counts: &[f64]) -> Vec<f64> {
+        super::grad_ll(pars, counts)
+    }
+    /// Integer root search, see `find_cutoff`
+    pub fn find_cutoff(pars: &[f64], max_cutoff: usize) -> usize {
+        super::find_cutoff(pars, max_cutoff)
+    }
+}
+
 // Helper struct for optimisation which keep counts as state
 struct MixPoisson {
     counts: Vec<f64>,
